@@ -320,7 +320,7 @@ func dispatch(job Job) *JobRes {
 	case "crash":
 		return crashJob(job)
 	case "window":
-		return windowJobRes(runWindow(job.Seed, job.Case, job.Tier))
+		return windowJobRes(runWindow(job.Seed, job.Case, job.Tier, job.Profile))
 	case "dgate":
 		return dgateJobRes(runDGate(job.Seed, job.Case, job.Tier))
 	case "inotable":
@@ -678,8 +678,8 @@ func propSpecs() map[string]PropSpec {
 			}
 			return js
 		}})
-	add(PropSpec{ID: "C13", Level: "exploration", Classes: []string{"enum", "crash"},
-		Rule: "page-by-page enumerations (READDIR and READDIRPLUS) of directories of 10 shapes (empty ... multi-block, freed slots, long names) with every count/dircount/maxcount class, resumption from every cookie previously returned, adds/removes between pages and a concurrent mutator; distinct = distinct (shape, procedure, count class, dircount class) combinations in runs with >= 1 multi-page enumeration",
+	add(PropSpec{ID: "C13", Level: "exploration", Classes: []string{"enum", "crash", "hang", "deadlock"},
+		Rule: "page-by-page enumerations (READDIR and READDIRPLUS) of directories of 10 shapes (empty ... multi-block, freed slots, long names) with every count/dircount/maxcount class, resumption from every cookie previously returned, adds/removes between pages and a concurrent mutator; every directory left behind by concurrent histories (creations/renames racing on few names, half-freed inodes handed out) and by directed abort-window histories is enumerated page by page as well; distinct = distinct (shape, procedure, count class, dircount class) combinations in runs with >= 1 multi-page enumeration",
 		Plan: func(tier string, seed uint64) []Job {
 			n := 60
 			if tier == "thorough" {
@@ -689,7 +689,8 @@ func propSpecs() map[string]PropSpec {
 			for i := 0; i < n; i++ {
 				js = append(js, Job{Engine: "enum", Profile: "C13", Seed: seed, Case: i})
 			}
-			return js
+			// directories as concurrent and directed histories leave them
+			return withWindow(withConc(func(string, uint64) []Job { return js }, "C13", 16, 160, false), "C13")(tier, seed)
 		}})
 	add(PropSpec{ID: "C19", Level: "exploration", Classes: []string{"limit", "crash"},
 		Rule: "names of length limit-2..limit+2, 255, 256, 1000+ (CREATE/MKDIR/SYMLINK/RENAME, then LOOKUP/list/rename/restart); WRITEs of wtpref, wtmax-1, wtmax, wtmax+1, 2*wtmax bytes at six offsets and three stability levels with read-back; file sizes maxfilesize-4097..+4097 and up to 2^64-1 by WRITE and SETATTR with reads, restart, truncation; beyond => error and unchanged tree/free counts; distinct = distinct (limit, delta, procedure, outcome) cases",
